@@ -19,6 +19,9 @@ LABELS = ["a", "b", "c", "ab", "é", "a", "b", "H%", "e\u0301", "\u212b"]  # (pr
 HOSTILE_LABELS = [" a", "b ", " c d ", "\ta", "a\n", "", "\u00a0nb", "wide\u3000", "\u2003em", "ls\u2028", "\x85nel", "\x1fus"]  # padding of every kind str.strip() removes
 
 
+BIG_RATE = 0.004
+
+
 class TierHistory:
     def __init__(self, rng, grid, observer=None, pool_max=8, hostile=True):
         from praatio.data_classes.interval_tier import IntervalTier
@@ -85,6 +88,19 @@ class TierHistory:
                     pts.append(x)
             ents = [(t, self.label()) for t in pts]
             klass = self.P
+        if self.hostile and not self.grid and r.random() < BIG_RATE:
+            # a tier of realistic size: a phone tier of a long recording has a thousand entries and more (and sizes just above 64 and
+            # 1024 are where a fast path for "large" inputs would begin)
+            n = r.choice([r.randrange(64, 90)] * 5 + [r.randrange(1024, 1100)])
+            w = self.hi / (2.2 * n)
+            pos, ents = 0.0, []
+            for _k in range(n):
+                if r.random() < 0.3:
+                    pos = round(pos + w * r.choice([0.5, 1.0]), 9)
+                a = pos
+                pos = round(pos + w * r.choice([0.5, 1.0, 1.5]), 9)
+                ents.append((a, pos, self.label()) if klass is self.I else (a, self.label()))
+            return self._run("construct", None, klass, ("h%d" % r.randrange(4), ents, 0.0, r.choice([None, self.hi])))
         if self.hostile and not self.grid and r.random() < 0.06:
             # a run of same-labelled entries far from zero whose times differ by less than the library's comparison tolerance
             # (1e-9 relative) - pitch pulses, analysis frames - handed over in any order: they are distinct entries and the tier that
@@ -141,8 +157,12 @@ class TierHistory:
         return self._run("construct", None, klass, ("h%d" % r.randrange(4), ents, lo, hi))
 
     def _add(self, t):
-        if t is None or not hasattr(t, "_entries") or len(t._entries) > 10:
+        if t is None or not hasattr(t, "_entries"):
             return
+        if len(t._entries) > 10:
+            # tiers stay small as a rule (the models are exact, not fast); at most two tiers of realistic size live in a pool
+            if len(t._entries) < 64 or sum(1 for x in self.pool if len(x._entries) >= 64) >= 2:
+                return
         self.pool.append(t)
         if len(self.pool) > self.pool_max:
             self.pool.pop(self.rng.randrange(len(self.pool)))
